@@ -51,7 +51,7 @@ func loadSchemas() []*schemaInfo { return loadSchemasOpt(false, false) }
 
 // progOnlySets: linked sets that exist for the class coverage of the translator ties (classcov.go, corpus.ClassCov: every map key x
 // value combination, every key width per shape, types of another Go package in every position). Only the six *prog engines load
-// them (loadSchemasProg): their value-level engines would pay for 190 more fields on every run without seeing a new code path of
+// them (loadSchemasProg): their value-level engines would pay for 183 more fields on every run without seeing a new code path of
 // the runtime — the classes differ in what the TEMPLATES print, which is what the program comparison looks at.
 var progOnlySets = map[string]bool{"vc": true}
 
